@@ -458,10 +458,11 @@ class CDSInterval(AbstractFeatureInterval):
         over every codon, but this is slower because it has a lot of object instantiation overhead. However,
         if those objects have already been instantiated and cached, then it is faster to just re-use them.
         """
-        if self._chunk_relative_codon_locations_cached is True:
+        # re-use cached codon locations if there are any; the answer must be what the direct path below gives
+        if self._chunk_relative_codon_locations_cached is True and self.chunk_relative_codon_locations:
             codons = (str(codon_location.extract_sequence()) for codon_location in self.chunk_relative_codon_locations)
             seq = "".join(codons)
-            return seq
+            return Sequence(seq, Alphabet.NT_EXTENDED, validate_alphabet=False)
         if self.num_blocks > 1:
             window_fn = self._prepare_multi_exon_window_for_scan_codon_locations
         else:
